@@ -1,7 +1,7 @@
 SPECIFICATION Spec
 CONSTANTS
   Procs = {1, 2, 3}
-  Prog <- EB
+  Prog <- ED
   MaxNodes = 11
   CleanPeriod = 1
   NoPrecheck = FALSE
